@@ -98,7 +98,12 @@ pub fn main(args: &Args) -> i32 {
             } else {
                 (*r.pick(&[14i64, 14, 1, 0, 3]), *r.pick(&[1u32, 2, 3, 5, 100, 0]))
             };
-            let hist = gen_history(&mut r, &g);
+            let mut hist = gen_history(&mut r, &g);
+            // shrinking: keep only the operations with the given indices (state-relative operations stay meaningful)
+            if let Some(keep) = args.kv.get("keep") {
+                let ks: std::collections::HashSet<usize> = keep.split(',').filter_map(|x| x.parse().ok()).collect();
+                hist.ops = hist.ops.iter().cloned().enumerate().filter(|(i, _)| ks.contains(i)).map(|(_, o)| o).collect();
+            }
             for su in &setups {
                 let mut sut = Sut::new(su.kind, days, versions, None).await;
                 let mut out = Out { w: &mut w, nlines: 0 };
